@@ -30,8 +30,9 @@ EXTENDS Integers, Sequences, FiniteSets, TLC
 Kinds == {"call", "publish", "subscribe", "unsubscribe", "register", "unregister"}
 NoRe == [out |-> <<>>, cbs |-> <<>>, evs |-> <<>>, done |-> <<>>, hcalls |-> <<>>, ecalls |-> <<>>, prog |-> <<>>, closes |-> 0, exc |-> ""]
 
-\* pend[k] : set of [id, x]  (x: call -> has progress handler (0/1); subscribe -> handler id; unsubscribe -> sub id;
-\*                            unregister -> reg id; others 0)
+\* pend[k] : set of [id, x]  (x: call -> has progress handler (0/1), +2 once the caller cancelled it (its result has
+\*                            completed, the table entry waits for the router's answer); subscribe -> handler id;
+\*                            unsubscribe -> sub id; unregister -> reg id; others 0)
 S0 == [tr |-> FALSE, joined |-> FALSE, gb |-> FALSE, hello |-> FALSE, nreq |-> 0,
        pend |-> [k \in Kinds |-> {}],
        subs |-> {},          \* set of [sub, hs]  hs = sequence of handler ids (possibly empty while UNSUBSCRIBE is in flight)
@@ -43,6 +44,9 @@ Get(ps, id) == CHOOSE p \in ps : p.id = id
 SubOf(s, sub) == CHOOSE x \in s.subs : x.sub = sub
 HasSub(s, sub) == \E x \in s.subs : x.sub = sub
 AllPending(s) == UNION {Ids(s.pend[k]) : k \in Kinds}
+CancelledCalls(s) == {p.id : p \in {q \in s.pend["call"] : q.x >= 2}}
+\* requests whose result is still open (a cancelled call's result has completed already)
+AllOpen(s) == AllPending(s) \ CancelledCalls(s)
 SetToSortedSeq(S) == \* ids in increasing order (completion order of the cleanup is by table, then id: not compared)
   LET RECURSIVE F(_) F(T) == IF T = {} THEN <<>> ELSE LET m == CHOOSE x \in T : \A y \in T : x <= y IN <<m>> \o F(T \ {m}) IN F(S)
 
@@ -50,7 +54,7 @@ Mk(s, re) == [s |-> s, re |-> re]
 
 \* ---------------------------------------------------------------- session lifecycle (C06)
 \* every pending request is completed with an error; the tables are emptied
-FailAll(s) == [done |-> [i \in 1..Cardinality(AllPending(s)) |-> [id |-> SetToSortedSeq(AllPending(s))[i], ok |-> FALSE]],
+FailAll(s) == [done |-> [i \in 1..Cardinality(AllOpen(s)) |-> [id |-> SetToSortedSeq(AllOpen(s))[i], ok |-> FALSE]],
                s |-> [s EXCEPT !.pend = [k \in Kinds |-> {}]]]
 
 Open(s) == Mk([s EXCEPT !.tr = TRUE, !.hello = TRUE, !.gb = FALSE],
@@ -115,7 +119,16 @@ Unsubscribe(s, sub, h, pos) ==
           ELSE Mk(s1, [NoRe EXCEPT !.done = <<[id |-> 0, ok |-> TRUE]>>])       \* completes at once, nothing sent
 
 Complete(s, kind, id, ok) ==
-  Mk([s EXCEPT !.pend[kind] = {p \in @ : p.id # id}], [NoRe EXCEPT !.done = <<[id |-> id, ok |-> ok]>>])
+  Mk([s EXCEPT !.pend[kind] = {p \in @ : p.id # id}],
+     [NoRe EXCEPT !.done = IF id \in CancelledCalls(s) THEN <<>> ELSE <<[id |-> id, ok |-> ok]>>])   \* a cancelled call completed when cancelled
+
+\* the caller cancels the result of a pending call: CANCEL goes out once, the result fails now, the request stays known
+\* until the router answers (ERROR wamp.error.canceled, or a RESULT that was already on its way)
+CancelCall(s, req) ==
+  IF req \notin Ids(s.pend["call"]) \/ req \in CancelledCalls(s) THEN Mk(s, NoRe)
+  ELSE LET p == Get(s.pend["call"], req) IN
+       Mk([s EXCEPT !.pend["call"] = (@ \ {p}) \cup {[id |-> req, x |-> p.x + 2]}],
+          [NoRe EXCEPT !.out = IF s.tr THEN <<[t |-> "cancel", req |-> req]>> ELSE <<>>, !.done = <<[id |-> req, ok |-> FALSE]>>])
 Violation(s) == Mk(s, [NoRe EXCEPT !.exc = "ProtocolError"])
 
 \* ---------------------------------------------------------------- invocations (C10)
@@ -155,7 +168,7 @@ RxSession(s, m, beh) ==
     [] m.t = "result" ->
          IF m.req \notin Ids(s.pend["call"]) THEN Violation(s)
          ELSE IF m.progress
-         THEN Mk(s, [NoRe EXCEPT !.prog = IF Get(s.pend["call"], m.req).x = 1 THEN <<m.req>> ELSE <<>>])
+         THEN Mk(s, [NoRe EXCEPT !.prog = IF Get(s.pend["call"], m.req).x % 2 = 1 THEN <<m.req>> ELSE <<>>])
          ELSE Complete(s, "call", m.req, TRUE)
     [] m.t = "error" ->
          IF m.kind \in Kinds /\ m.req \in Ids(s.pend[m.kind]) THEN Complete(s, m.kind, m.req, FALSE) ELSE Violation(s)
@@ -237,6 +250,7 @@ Next ==
   \/ s.hello /\ Apply(Disconnect(s))
   \/ s.hello /\ s.nreq < MaxReq /\
        \/ \E p \in BOOLEAN : Apply(Call(s, p))
+       \/ \E c \in s.pend["call"] : Apply(CancelCall(s, c.id))
        \/ \E a \in BOOLEAN : Apply(Publish(s, a))
        \/ \E h \in Handlers : Apply(Subscribe(s, h))
        \/ Apply(Register(s))
@@ -251,7 +265,8 @@ Spec == Init /\ [][Next]_vars
 \* C04
 FreshSequentialIds == s.nreq <= MaxReq /\ \A k \in Kinds : \A p \in s.pend[k] : p.id >= 1 /\ p.id <= s.nreq
 ExactlyOnce == \A i, j \in 1..Len(hist.completed) : (i # j /\ hist.completed[i] # 0) => hist.completed[i] # hist.completed[j]
-OnlyOwnReply == \A i \in 1..Len(re.done) : re.done[i].id = 0 \/ re.done[i].id \notin AllPending(s)
+OnlyOwnReply == \A i \in 1..Len(re.done) : re.done[i].id = 0 \/ re.done[i].id \notin AllOpen(s)
+CancelSentOnce == Len(SelectSeq(re.out, LAMBDA o : o.t = "cancel")) <= 1
 UnknownReplyIsViolation == (re.exc = "ProtocolError") => (re.done = <<>> /\ re.out = <<>> /\ re.hcalls = <<>> /\ re.ecalls = <<>>)
 \* C06
 NothingPendingWithoutSession == (~s.tr) => AllPending(s) = {}
